@@ -27,6 +27,7 @@ Decides:
  D forkers         pass-through wrappers (hide, group_help, map ..) do not fork the state: a hidden command that was entered hands its depth on.
  L final first     run_subparser hands an inner final answer (Message::ParseFailure: a subcommand's output or rendered error) on BEFORE looking
                     for its own help/version flag: `cmd --version` with a version only on the parent stays the subcommand's failure.
+ M depth only grows  State.path is only ever pushed (by ParseCommand::eval).
 Does not decide: acceptance of whole subcommand lines."""
 import re
 from core import *
